@@ -632,7 +632,8 @@ ddiff_prnt(struct dt_dtdur_s dur, const char *fmt, durfmt_t f, bool only_d_p)
 {
 /* this is mainly a better dt_strfdtdur() */
 	char buf[256];
-	size_t res = __strfdtdur(buf, sizeof(buf), fmt, dur, f, only_d_p);
+	/* leave room for the auto-newline */
+	size_t res = __strfdtdur(buf, sizeof(buf) - 1U, fmt, dur, f, only_d_p);
 
 	if (res > 0 && buf[res - 1] != '\n') {
 		/* auto-newline */
